@@ -18,7 +18,8 @@ FEAT = "backend-mmap backend-atomic backend-bitmap"
 
 
 def sh(cmd, cwd=None, timeout=1800):
-    p = subprocess.run(cmd, shell=True, cwd=cwd, stdout=subprocess.PIPE, stderr=subprocess.STDOUT, text=True, timeout=timeout)
+    env = dict(os.environ, VERIF_EVIDENCE_DIR="/verif/work/seed-evidence")
+    p = subprocess.run(cmd, shell=True, cwd=cwd, stdout=subprocess.PIPE, stderr=subprocess.STDOUT, text=True, timeout=timeout, env=env)
     return p.returncode, p.stdout
 
 
